@@ -59,7 +59,7 @@ def rows_arg(rows):
 
 
 def gen_op(rng):
-    k = rng.randrange(20)
+    k = rng.choice(list(range(20)) + [10, 11, 11, 11, 11])      # (flag operations are cheap and have many partial-overlap cases)
     edge = lambda hi: rng.choice([0, 1, hi - 1, hi, rng.randrange(hi + 1)])  # noqa: E731
     if k == 0:
         return ('getsprite', rng.randrange(256), rng.choice([1, 1, 2, 3, 17]), rng.choice([1, 1, 2, 16, 17]))
@@ -87,7 +87,9 @@ def gen_op(rng):
     if k == 10:
         return ('getflags', rng.randrange(256), rng.choice([255, 1, 0x90, rng.randrange(256)]))
     if k == 11:
-        return (rng.choice(['setflags', 'clearflags', 'resetflags']), rng.randrange(256), rng.choice([255, 0, 1, 128, rng.randrange(256)]))
+        # flag sets that are disjoint from, equal to, inside, containing and partially overlapping what a tile usually has
+        return (rng.choice(['setflags', 'setflags', 'clearflags', 'resetflags']), rng.choice([rng.randrange(256), 0, 1, 255]),
+                rng.choice([255, 0, 1, 128, 3, 6, 0x0f, 0xf0, 0x81, 0x55, 0xaa, rng.randrange(256), rng.randrange(256)]))
     if k == 12:
         return ('getnote', rng.randrange(64), rng.randrange(32))
     if k in (13, 14):
